@@ -123,6 +123,10 @@ def w_model(case):
         # the model was used for another number of individuals before
         m = popbuild.build(spec, case['resize_from'])
         m.set_n_ids(n_ids)
+    elif case.get('stale_from'):
+        # the model was told another number of individuals (models without a
+        # heterogeneous part document that they ignore the number)
+        m = popbuild.build(spec, case['stale_from'])
     else:
         m = popbuild.build(spec, n_ids)
     viol = []
@@ -201,6 +205,25 @@ def w_model(case):
                      for i in range(n_ids))
             g = m.compute_log_likelihood(tv.copy(), obs.copy())
             ntr += 1
+            if d == 1 and tol.close(g, e2):
+                # one-dimensional models: the individuals' values as a plain vector
+                # / list (where the class accepts that form)
+                for form, o1 in (('vector', obs[:, 0].copy()),
+                                 ('list', obs[:, 0].tolist())):
+                    for lname, lay in (('tensor', tv), ('flat', top)):
+                        try:
+                            g1 = m.compute_log_likelihood(lay.copy(), o1)
+                        except Exception:
+                            continue
+                        ntr += 1
+                        e1 = e2 if lname == 'tensor' else exp
+                        if not tol.close(g1, e1):
+                            viol.append({
+                                'sub': 'll_obs_' + form, 'message': 'log-likelihood '
+                                'of individuals given as a plain %s (%s layout) '
+                                'differs from the (n_ids, 1) form (%s)'
+                                % (form, lname, lab), 'expected': e1,
+                                'observed': g1, 'behaviour': 'obs_vector'})
             if not tol.close(g, e2):
                 viol.append({
                     'sub': 'll_tensor_var', 'message': 'log-likelihood with an '
@@ -391,6 +414,8 @@ def w_model(case):
         for name, t_l, e_l in forms:
             if case.get('variant') == 'neg_sigma':
                 continue
+            if name == 'flat_eta' and case.get('stale_from'):
+                continue      # (a flat vector is shaped by the number told)
             kw = {'covariates': cov} if rp.n_cov(spec) > 0 else {}
             nc_elem = elementary and spec['kind'] in ('G', 'LN') and \
                 not spec['centered']
@@ -626,6 +651,21 @@ def build(tier, seed):
                 for idx in itertools.combinations(range(n), r):
                     spec = rp.Red(base, {i: full[i] for i in idx})
                     red_cases.append(make_case(spec, n_ids, seed, True))
+    # reduced models (no heterogeneous part) evaluated for a number of individuals
+    # other than the one they were told last
+    # (elementary models only: compositions size their hierarchical form from the
+    # number they were told)
+    for base in (rp.G(1), rp.LN(2), rp.TG(1), rp.G(2, False), rp.LN(1, False)):
+        for a_, b_ in ((1, 2), (1, 3), (3, 2), (2, 1), (4, 3)):
+            n = rp.n_top(base, b_)
+            full = popvals.top_values(base, b_, seed)
+            for idx in [()] + [(i,) for i in range(n)] + [(0, n - 1)]:
+                if len(set(idx)) != len(idx):
+                    continue
+                c_ = make_case(rp.Red(base, {i: full[i] for i in idx}), b_, seed,
+                               True)
+                c_['stale_from'] = a_
+                red_cases.append(c_)
     # wrappers fixed for one individual around compositions whose heterogeneous block
     # comes before the fixed parameter, then told the number of individuals
     for base in (rp.Comp([rp.H(1), rp.G(1)]), rp.Comp([rp.H(2), rp.LN(1)]),
@@ -681,3 +721,4 @@ META['level_text'] += (
     'ans in the far tail (mu/sigma down to -20), one sub-model object listed severa'
     'l times, sub-models with all parameters fixed inside compositions, wrappers fi'
     'xed for one individual and resized, reduce vs flattened flags.')
+META['level_text'] += (' Wave 9: individuals of one-dimensional models as a plain vector / list, reduced elementary models evaluated for another number of individuals than the one told.')
